@@ -35,6 +35,8 @@ TIE_A = ["Tables.export", "code:fuzzylite.rule.Rule.parse",
 TIE_A += [f"code:fuzzylite.importer.FllImporter.{m}" for m in (
     "extract_key_value", "extract_value", "boolean", "range", "tnorm", "snorm", "activation", "defuzzifier", "term", "rule",
     "input_variable", "output_variable", "rule_block", "_process", "engine")]
+# `Op.str` and the dispatch of `FllExporter.to_string` (theorems `code_opStr`, `code_fllToString`)
+TIE_A += ["code:fuzzylite.operation.Operation.str", "code:fuzzylite.exporter.FllExporter.to_string"]
 # the importer's factory look-ups (theorems `code_importTnorm` / `code_importSnorm`; the callee is tied in C17)
 TIE_A += ["code:fuzzylite.importer.FllImporter.tnorm", "code:fuzzylite.importer.FllImporter.snorm",
           "code:fuzzylite.factory.ConstructionFactory.construct"]
